@@ -211,6 +211,7 @@ def in_flight_roots(log, upto):
 def mon_cancel(case, log):
     bad = []
     prot = set(case.get('protected', []))
+    nfin = 0 if 'finalize_event' in case.get('sparse', []) else 3
     cancelled_at = {}        # root -> (log index, by chain, model, decide tag)
     roots = set(it[1] for it in log if it[0] == 'begin' and it[1] == it[2])
     n = len(log)
@@ -268,13 +269,13 @@ def mon_cancel(case, log):
             if sf and any(sf[0] < j < ended[0] for j in cancels_r):
                 okc = set(it[3] for it in log[:ended[0]] if it[0] == 'cbend' and it[1] == e
                           and it[2] == 'finalize_event' and it[4] != 'cancelled')
-                if len(okc) < 3:
+                if len(okc) < nfin:
                     bad.append(('cancelled.finalize_interrupted', 'event %s of task %s was in its finalize stage when '
                                 'the task was cancelled: finalize callbacks %s were interrupted or never started'
                                 % (e, r, sorted(set([0, 1, 2]) - okc))))
                 continue
             fin = set(it[3] for it in log[i0:ended[0]] if it[0] == 'cb' and it[1] == e and it[2] == 'finalize_event')
-            if len(fin) < 3:
+            if (len(fin) < nfin) or (nfin == 0 and not any(sf0 > i0 for sf0 in sf)):
                 bad.append(('cancelled.no_finalize', 'cancelled event %s ended without starting finalize callbacks %s'
                             % (e, sorted(set([0, 1, 2]) - fin))))
         # … and the trigger returns False (None counts as False, see assumptions)
